@@ -138,7 +138,15 @@ pub fn prayer_times_dt_rng_block(
     } else {
         1
     };
+    #[cfg(ipt_verif)]
+    let avail_pll = crate::verif_hooks::parallelism_override(avail_pll);
     let no_parallelism = date_range.num_days() / avail_pll < min_days_for_pll;
+    #[cfg(ipt_verif)]
+    crate::verif_hooks::point(
+        if avail_pll == 1 || no_parallelism { "decide_seq" } else { "decide_par" },
+        date_range.num_days() as i64,
+        avail_pll as i64,
+    );
 
     // No parallelism.
     if avail_pll == 1 || no_parallelism {
@@ -149,26 +157,55 @@ pub fn prayer_times_dt_rng_block(
             let (tx, rx) = channel();
 
             // Spawn thread to combine prayer times for each date range.
+            #[cfg(ipt_verif)]
+            crate::verif_hooks::point("spawn_coll", 0, 0);
             let handle = s.spawn(move || {
+                #[cfg(ipt_verif)]
+                crate::verif_hooks::point("coll_start", 0, 0);
                 let mut times = BTreeMap::new();
                 while let Ok(mut partial_times) = rx.recv() {
+                    #[cfg(ipt_verif)]
+                    crate::verif_hooks::point(
+                        "recv_ok",
+                        verif_first_day(&partial_times),
+                        verif_len(&partial_times),
+                    );
                     times.append(&mut partial_times);
                 }
+                #[cfg(ipt_verif)]
+                crate::verif_hooks::point("recv_err", verif_len(&times), 0);
                 times
             });
 
             // Spawn threads to calculate prayer times for each date range.
             let date_ranges = date_range.partition(avail_pll);
+            #[cfg(ipt_verif)]
+            crate::verif_hooks::point("partition", date_ranges.len() as i64, avail_pll as i64);
             for date_range in date_ranges {
+                #[cfg(ipt_verif)]
+                let verif_id = (verif_day(date_range.start_date()), date_range.num_days() as i64);
                 let tx = tx.clone();
+                #[cfg(ipt_verif)]
+                crate::verif_hooks::point("spawn_worker", verif_id.0, verif_id.1);
                 s.spawn(move || {
+                    #[cfg(ipt_verif)]
+                    crate::verif_hooks::point("w_start", verif_id.0, verif_id.1);
                     let partial_times = prayer_times_dt_rng(params, location, &date_range);
+                    #[cfg(ipt_verif)]
+                    let verif_guard =
+                        crate::verif_hooks::enter("w_send", verif_id.0, partial_times.len() as i64);
                     tx.send(partial_times).unwrap();
+                    #[cfg(ipt_verif)]
+                    drop(verif_guard);
                 });
             }
 
             // Close channel to terminate blocking channel receive loop.
+            #[cfg(ipt_verif)]
+            let verif_guard = crate::verif_hooks::enter("drop_tx", 0, 0);
             drop(tx);
+            #[cfg(ipt_verif)]
+            drop(verif_guard);
 
             handle.join().unwrap()
         })
@@ -278,4 +315,20 @@ fn to_prayer_time(params: &Params, prayer: Prayer, prayer_hour: PrayerHour) -> P
         time: hour_to_time(params, prayer, prayer_hour.value),
         extreme: prayer_hour.extreme,
     }
+}
+
+#[cfg(ipt_verif)]
+fn verif_day(date: &NaiveDate) -> i64 {
+    use chrono::Datelike;
+    date.num_days_from_ce() as i64
+}
+
+#[cfg(ipt_verif)]
+fn verif_first_day(times: &BTreeMap<NaiveDate, BTreeMap<Prayer, Result<PrayerTime, ()>>>) -> i64 {
+    times.keys().next().map_or(-1, verif_day)
+}
+
+#[cfg(ipt_verif)]
+fn verif_len(times: &BTreeMap<NaiveDate, BTreeMap<Prayer, Result<PrayerTime, ()>>>) -> i64 {
+    times.len() as i64
 }
